@@ -12,7 +12,7 @@ if ! git apply --check "$PATCH" 2>/dev/null && [ -n "$BASE" ]; then git checkout
 git apply "$PATCH" || { echo "PATCH-DOES-NOT-APPLY"; exit 2; }
 cd /verif
 mkdir -p out/seed-evidence
-DREYE_REPO="$WT" VERIF_EVIDENCE_DIR=/verif/out/seed-evidence ./check "$PID" --tier "$TIER" > "out/seed-$PID-$$.log" 2>&1
+DREYE_REPO="$WT" VERIF_EVIDENCE_DIR=/verif/out/seed-evidence VERIF_OUT_DIR=/verif/out/seed-out ./check "$PID" --tier "$TIER" > "out/seed-$PID-$$.log" 2>&1
 rc=$?
 git -C "$WT" checkout -q -- .
 if [ $rc -eq 1 ]; then echo "DETECTED rc=1: $(grep -c '^VIOLATION' out/seed-$PID-$$.log) violation lines; first: $(grep '^VIOLATION' out/seed-$PID-$$.log | head -1 | cut -c1-260)";
